@@ -191,7 +191,7 @@ def run(chk, gate, status):
         if exp is None:
             ok = impl[0] == 'exc'
         else:
-            ok = impl[0] == 'ok' and (impl[2], impl[3]) == (exp[1], exp[2]) and abs(impl[1] - exp[0]) <= abs(exp[0]) * F(1, 10**9) + F(6, 10**11)
+            ok = impl[0] == 'ok' and (impl[2], impl[3]) == (exp[1], exp[2]) and abs(impl[1] - exp[0]) <= abs(exp[0]) * F(1, 10**9)
         if not ok:
             nfail += 1
             if nfail <= 3:
@@ -202,7 +202,7 @@ def run(chk, gate, status):
             agree = impl[0] == 'exc' and (impl[1] == common.ERR_CODE[m[1]] or (m[1] == 4 and impl[1] not in ('ValueError', 'TypeError')))
         else:
             mv = F(m[3], m[4])
-            agree = impl[0] == 'ok' and (impl[2], impl[3]) == (BCODE[m[1]], BCODE[m[2]]) and abs(impl[1] - mv) <= abs(mv) * F(1, 10**9) + F(6, 10**11)
+            agree = impl[0] == 'ok' and (impl[2], impl[3]) == (BCODE[m[1]], BCODE[m[2]]) and abs(impl[1] - mv) <= abs(mv) * F(1, 10**9)
         if not agree:
             ndis += 1
             if ndis <= 3 and ok:
